@@ -331,3 +331,181 @@ func TestPaths(t *testing.T) {
 	defer worker.Close()
 	pbt.Run(t, pbt.Prop[Case]{Name: "paths", Quick: 640, Thorough: 24000, Gen: gen, Oracle: oracle})
 }
+
+// --- statically bound calls vs run-time dispatch ---------------------------------
+
+// Hier is a generated class tree with instance-level and class-level (singleton) methods.
+type Hier struct {
+	Parent []int    `json:"parent"` // Parent[i] = index of the superclass of class i (-1 = none), always < i
+	Inst   [][]bool `json:"inst"`   // Inst[i][k]: class i defines instance method m<k>
+	Sing   [][]bool `json:"sing"`   // Sing[i][k]: class i defines class-level method m<k>
+	Relay  []int    `json:"relay"`  // Relay[i] = k >= 0: class i defines r (instance and class level) calling self.m<k>; -1 = none
+	Sites  []Site   `json:"sites"`
+}
+
+type Site struct {
+	Static int  `json:"static"` // static type of the receiver variable
+	Run    int  `json:"run"`    // run-time class (a descendant of Static, or Static itself)
+	Sing   bool `json:"sing"`   // class-level call through a `&Static` typed variable
+	M      int  `json:"m"`      // method m<M>, or -1 for the relay method r
+}
+
+const nMeth = 3
+
+func genHier(t *rapid.T) Hier {
+	n := rapid.IntRange(2, 5).Draw(t, "nclasses")
+	h := Hier{}
+	for i := 0; i < n; i++ {
+		p := -1
+		if i > 0 {
+			p = rapid.IntRange(0, i-1).Draw(t, "parent")
+			if vgen.Pick(t, 4, "root") == 0 && i > 1 {
+				p = 0
+			}
+		}
+		h.Parent = append(h.Parent, p)
+		inst, sing := make([]bool, nMeth), make([]bool, nMeth)
+		for k := 0; k < nMeth; k++ {
+			inst[k] = i == 0 || vgen.Pick(t, 2, "oi") == 0 // the root defines everything
+			sing[k] = i == 0 || vgen.Pick(t, 2, "os") == 0
+		}
+		h.Inst, h.Sing = append(h.Inst, inst), append(h.Sing, sing)
+		r := -1
+		if i == 0 || vgen.Pick(t, 3, "relay") == 0 {
+			r = vgen.Pick(t, nMeth, "relayk")
+		}
+		h.Relay = append(h.Relay, r)
+	}
+	desc := func(s int) []int { // s and its descendants
+		var out []int
+		for c := 0; c < n; c++ {
+			for a := c; a >= 0; a = h.Parent[a] {
+				if a == s {
+					out = append(out, c)
+					break
+				}
+			}
+		}
+		return out
+	}
+	for i := rapid.IntRange(4, 14).Draw(t, "nsites"); i > 0; i-- {
+		s := rapid.IntRange(0, n-1).Draw(t, "static")
+		ds := desc(s)
+		h.Sites = append(h.Sites, Site{s, ds[vgen.Pick(t, len(ds), "run")], rapid.Bool().Draw(t, "sing"), vgen.Pick(t, nMeth+1, "m") - 1})
+	}
+	return h
+}
+
+func (h Hier) source() string {
+	var b strings.Builder
+	for i, p := range h.Parent {
+		if p < 0 {
+			fmt.Fprintf(&b, "class K%d\n", i)
+		} else {
+			fmt.Fprintf(&b, "class K%d < K%d\n", i, p)
+		}
+		for k := 0; k < nMeth; k++ {
+			if h.Inst[i][k] {
+				fmt.Fprintf(&b, "  def m%d: String then \"K%d:m%d\"\n", k, i, k)
+			}
+		}
+		if h.Relay[i] >= 0 {
+			fmt.Fprintf(&b, "  def r: String then \"K%d:r(\" + self.m%d + \")\"\n", i, h.Relay[i])
+		}
+		b.WriteString("  singleton\n")
+		for k := 0; k < nMeth; k++ {
+			if h.Sing[i][k] {
+				fmt.Fprintf(&b, "    def m%d: String then \"K%d.m%d\"\n", k, i, k)
+			}
+		}
+		if h.Relay[i] >= 0 {
+			fmt.Fprintf(&b, "    def r: String then \"K%d.r(\" + self.m%d + \")\"\n", i, h.Relay[i])
+		}
+		b.WriteString("  end\nend\n")
+	}
+	for j, s := range h.Sites {
+		name := "r"
+		if s.M >= 0 {
+			name = fmt.Sprintf("m%d", s.M)
+		}
+		if s.Sing {
+			fmt.Fprintf(&b, "var v%d: &K%d = K%d\nprintln(\"S%d \" + v%d.%s)\n", j, s.Static, s.Run, j, j, name)
+		} else {
+			fmt.Fprintf(&b, "var v%d: K%d = K%d()\nprintln(\"S%d \" + v%d.%s)\n", j, s.Static, s.Run, j, j, name)
+		}
+	}
+	return b.String()
+}
+
+// expect computes what run-time dispatch prescribes: the most derived definition on the chain of the run-time class.
+func (h Hier) expect() string {
+	find := func(c int, sing bool, k int) int {
+		for a := c; a >= 0; a = h.Parent[a] {
+			if (sing && h.Sing[a][k]) || (!sing && h.Inst[a][k]) {
+				return a
+			}
+		}
+		return 0
+	}
+	var b strings.Builder
+	for j, s := range h.Sites {
+		sep := ":"
+		if s.Sing {
+			sep = "."
+		}
+		if s.M >= 0 {
+			fmt.Fprintf(&b, "S%d K%d%sm%d\n", j, find(s.Run, s.Sing, s.M), sep, s.M)
+			continue
+		}
+		rc := s.Run
+		for h.Relay[rc] < 0 {
+			rc = h.Parent[rc]
+		}
+		k := h.Relay[rc]
+		fmt.Fprintf(&b, "S%d K%d%sr(K%d%sm%d)\n", j, rc, sep, find(s.Run, s.Sing, k), sep, k)
+	}
+	return b.String()
+}
+
+func dispatchOracle(h Hier, ctx *pbt.Ctx) error {
+	src, want := h.source(), h.expect()
+	res := worker.Do(sb.Req{Mode: "run", Source: src}, 60*time.Second)
+	class, detail := sb.Classify(res)
+	switch class {
+	case sb.Timeout:
+		pbt.Inconclusive()
+		return nil
+	case sb.Rejected:
+		return fmt.Errorf("GENERATOR: class program rejected by the checker: %v\n%s", res.Resp.Runs[0].Diags, mrun.Clip(src, 3000))
+	case sb.GoPanic, sb.Fatal, sb.ElkError:
+		return fmt.Errorf("class program failed (%s): %s\n%s", class, mrun.Clip(detail, 1200), mrun.Clip(src, 3000))
+	}
+	got := res.Resp.Runs[0].Stdout
+	if got != want {
+		return fmt.Errorf("a call gives another result than run-time dispatch on the receiver's class prescribes: %s\n--- want\n%s--- got\n%s--- program\n%s", mrun.FirstDiff(want, got), want, got, mrun.Clip(src, 4000))
+	}
+	sub, sing, relay := false, false, false
+	for _, s := range h.Sites {
+		sub = sub || s.Run != s.Static
+		sing = sing || s.Sing
+		relay = relay || s.M < 0
+	}
+	if sing {
+		ctx.Label("has_singleton_site")
+	}
+	if relay {
+		ctx.Label("has_relay_site")
+	}
+	if sub {
+		ctx.NonTrivial(src)
+	}
+	return nil
+}
+
+func TestDispatch(t *testing.T) {
+	pbt.Rule("dispatch", "generated class trees (2..5 classes, single inheritance) in which every class defines or inherits three instance methods and three class-level (singleton) methods returning a tag, plus relay methods calling self.m<k>; 4..14 call sites through variables whose static type is a class (or &Class for class-level calls) and whose run-time value is that class or a descendant; the printed tag must be the most derived definition on the run-time class's chain, i.e. what dispatch at run time prescribes, wherever the compiler bound the call statically. Non-trivial = at least one site whose run-time class differs from its static type; distinct by source")
+	worker = sb.New("debug")
+	defer worker.Close()
+	pbt.Run(t, pbt.Prop[Hier]{Name: "dispatch", Quick: 1200, Thorough: 40000, Gen: genHier, Oracle: dispatchOracle,
+		Sample: func(h Hier) any { return map[string]any{"src": h.source(), "want": h.expect()} }})
+}
